@@ -1,4 +1,4 @@
-N = {"quick": 72, "thorough": 1200}
+N = {"quick": 60, "thorough": 1000}
 PROP = dict(
     id="C12",
     module="FV.C12.Props",
